@@ -464,7 +464,7 @@ func gen(o *tr.Opts, w *tr.W) {
 	}
 
 	// 4. long random mixes with phases (grow / shrink / churn), Clear mid-way
-	nmix := o.Scale(1500, 40000)
+	nmix := o.Scale(1500, 30000)
 	for i := 0; i < nmix; i++ {
 		in := tr.Pick(r, inits)
 		if r.Chance(1, 10) {
